@@ -11,6 +11,9 @@ package corerad
 //   rnd  random larger RAs (repeated prefixes and routes, several RDNSS / DNSSL, unknown options)
 //   cfg  own RA built by config.Parse from generated TOML (sub-unit durations), received RA =
 //        its own wire image, delivered through Advertiser.handle with the parsed plugins
+//   dyn  ONE Advertiser (wildcard ::/64 prefix, :: RDNSS, ::/0 route, deprecated prefix / route) receives
+//        2-4 RAs while its own RA changes in between (injected addresses / routes / clock, forwarding
+//        flip); each reception is compared with the own RA of that moment
 // Every own RA that the codec accepts is also sent to itself (self = 1|2).
 
 import (
@@ -19,6 +22,7 @@ import (
 	"log"
 	"net"
 	"net/netip"
+	"reflect"
 	"sort"
 	"strings"
 	"testing"
@@ -681,7 +685,281 @@ func TestVerifC12(t *testing.T) {
 		e.emit(id+"-h", 1, built, image, self, o, append([]string{"order:handle-image"}, tags...))
 	}
 
+	v12Dynamic(t, e)
+
 	v12CodecUnstable(t, out)
+}
+
+// ---- dyn: one Advertiser, several received RAs, the own RA changing in between
+
+// v12Env is the live system state the plugins of a parsed configuration read each time the own RA is built.
+type v12Env struct {
+	addrs  []system.IP
+	routes []system.Route
+	now    time.Time
+	state  system.TestState // Interfaces map: forwarding of the interface, mutable in place
+}
+
+// v12Harness is a real Advertiser (metrics, log, hook) whose handle receives a sequence of RAs.
+type v12Harness struct {
+	a        *Advertiser
+	cfg      config.Interface
+	mem      *metricslite.Memory
+	buf      bytes.Buffer
+	hooks    int
+	hookOurs *ndp.RouterAdvertisement
+}
+
+func newV12Harness(cfg config.Interface, state system.State) *v12Harness {
+	h := &v12Harness{cfg: cfg, mem: metricslite.NewMemory()}
+	mm := NewMetrics(h.mem, "verif", time.Time{}, state, nil)
+	cctx := NewContext(log.New(&h.buf, "", 0), mm, state)
+	h.a = NewAdvertiser(cctx, cfg, nil, nil, func() bool { return true })
+	h.a.OnInconsistentRA = func(o, _ *ndp.RouterAdvertisement) { h.hooks++; h.hookOurs = o }
+	return h
+}
+
+// deliver hands theirs to handle and returns the deltas of counters, hook invocations and log lines, and the own
+// RA the hook was given (nil when it did not fire).
+func (h *v12Harness) deliver(theirs *ndp.RouterAdvertisement) (v12Obs, *ndp.RouterAdvertisement, error) {
+	var o v12Obs
+	// log lines of the consistency check (the summary line and one per problem); building the own RA may log
+	// its own line when the interface is not forwarding (C04), which is not one of them
+	lines := func() int { return bytes.Count(h.buf.Bytes(), []byte("inconsisten")) }
+	before, lines0, hooks0 := v12Samples(h.mem), lines(), h.hooks
+	h.hookOurs = nil
+	dst, err := h.a.handle(theirs, netip.MustParseAddr("fe80::2"))
+	if err != nil {
+		return o, nil, err
+	}
+	if dst.IsValid() {
+		return o, nil, fmt.Errorf("handle answered an RA with destination %s", dst)
+	}
+	after := v12Samples(h.mem)
+	o.hook = h.hooks - hooks0
+	o.logged = lines() - lines0
+	o.labelsOK = true
+	keys := make([]string, 0, len(after))
+	for k := range after {
+		keys = append(keys, k)
+	}
+	sort.Strings(keys)
+	for _, k := range keys {
+		d := after[k] - before[k]
+		if d == 0 {
+			continue
+		}
+		var p v12Problem
+		seen := 0
+		for _, kv := range strings.Split(k, ",") {
+			name, val, _ := strings.Cut(kv, "=")
+			switch name {
+			case "interface":
+				seen++
+				if val != h.cfg.Name {
+					o.labelsOK = false
+				}
+			case "details":
+				seen++
+				p.Details = val
+			case "field":
+				seen++
+				p.Field = val
+			default:
+				o.labelsOK = false
+			}
+		}
+		if seen != 3 || d < 0 || d != float64(int(d)) {
+			o.labelsOK = false
+			continue
+		}
+		for n := int(d); n > 0; n-- {
+			o.reported = append(o.reported, p)
+		}
+	}
+	return o, h.hookOurs, nil
+}
+
+var v12DynAddrs = []string{"2001:db8:1::1/64", "2001:db8:2::1/64", "2001:db8:3::1/64", "fd00:4::1/64", "fd00:5::53/64", "2001:db8:1::2/64", "fe80::1/64"}
+
+var v12DynRoutes = []string{"2001:db8:aa00::/40", "fd00:bb::/32", "2001:db8:cc::/48"}
+
+// v12DynConfig: a configuration whose RA depends on live state: wildcard prefix / RDNSS / route stanzas, a
+// deprecated prefix and route (lifetimes count down with the clock), and a few static stanzas.
+func v12DynConfig(r *verifh.Rand) (string, []string) {
+	var sb strings.Builder
+	var tags []string
+	fmt.Fprintf(&sb, "[[interfaces]]\nname = \"eth3\"\nadvertise = true\nmax_interval = \"%ds\"\n", 4+r.Intn(600))
+	if r.Chance(50) {
+		fmt.Fprintf(&sb, "default_lifetime = \"%ds\"\n", 1800+r.Intn(7000))
+	}
+	life := func() (string, string) {
+		v := 600 + r.Intn(100000)
+		return fmt.Sprintf("%ds", v), fmt.Sprintf("%ds", 1+r.Intn(v))
+	}
+	dynamic := false
+	if r.Chance(75) {
+		v, p := life()
+		fmt.Fprintf(&sb, "  [[interfaces.prefix]]\n  prefix = \"::/64\"\n  valid_lifetime = %q\n  preferred_lifetime = %q\n", v, p)
+		tags = append(tags, "dyn:wildcard-prefix")
+		dynamic = true
+	}
+	if r.Chance(50) {
+		v, p := life()
+		fmt.Fprintf(&sb, "  [[interfaces.prefix]]\n  prefix = \"2001:db8:d::/64\"\n  valid_lifetime = %q\n  preferred_lifetime = %q\n  deprecated = true\n", v, p)
+		tags = append(tags, "dyn:deprecated-prefix")
+		dynamic = true
+	}
+	if r.Chance(40) {
+		v, p := life()
+		fmt.Fprintf(&sb, "  [[interfaces.prefix]]\n  prefix = \"2001:db8:e::/64\"\n  valid_lifetime = %q\n  preferred_lifetime = %q\n", v, p)
+	}
+	if r.Chance(40) {
+		fmt.Fprintf(&sb, "  [[interfaces.route]]\n  prefix = \"::/0\"\n  lifetime = \"%ds\"\n", 100+r.Intn(5000))
+		tags = append(tags, "dyn:wildcard-route")
+		dynamic = true
+	}
+	if r.Chance(35) {
+		fmt.Fprintf(&sb, "  [[interfaces.route]]\n  prefix = \"2001:db8:dd00::/40\"\n  lifetime = \"%ds\"\n  deprecated = true\n", 600+r.Intn(5000))
+		tags = append(tags, "dyn:deprecated-route")
+		dynamic = true
+	}
+	if r.Chance(45) || !dynamic {
+		fmt.Fprintf(&sb, "  [[interfaces.rdnss]]\n  servers = [\"::\", \"2001:db8::53\"]\n  lifetime = \"%ds\"\n", 100+r.Intn(5000))
+		tags = append(tags, "dyn:wildcard-rdnss")
+	}
+	return sb.String(), tags
+}
+
+// v12Dynamic: the own RA changes BETWEEN received RAs -- the injected address list of a wildcard ::/64 prefix (and
+// of a wildcard RDNSS server), the loopback routes of a wildcard route, the forwarding flag, the clock under a
+// deprecated prefix / route -- and every received RA must be compared with the own RA as it is at that moment
+// (computed here by config.Interface.RouterAdvertisement on the current state, independently of handle).
+func v12Dynamic(t *testing.T, e *v12Emitter) {
+	n := 120
+	if verifh.Thorough() {
+		n = 2500
+	}
+	epoch := time.Unix(1700000000, 0)
+	for c := 0; c < n; c++ {
+		id := fmt.Sprintf("c12-dyn-%d", c)
+		wanted := false
+		for k := 0; k < 5; k++ {
+			wanted = wanted || e.out.Wants(fmt.Sprintf("%s-%d", id, k))
+		}
+		if !wanted {
+			continue
+		}
+		r := verifh.NewRand(verifh.Seed(), id)
+		toml, tags := v12DynConfig(r)
+		cfg, err := config.Parse(strings.NewReader(toml), epoch)
+		if err != nil {
+			t.Fatalf("%s: generated configuration rejected: %v\n%s", id, err, toml)
+		}
+		ifi := cfg.Interfaces[0]
+		env := &v12Env{now: epoch.Add(time.Duration(r.Intn(300)) * time.Second),
+			state: system.TestState{Interfaces: map[string]system.TestStateInterface{ifi.Name: {Forwarding: r.Chance(70)}}}}
+		pick := func(pool []string, k int) []string {
+			p := append([]string(nil), pool...)
+			verifh.Shuffle(r, p)
+			return p[:k]
+		}
+		setAddrs := func() {
+			env.addrs = nil
+			for _, s := range pick(v12DynAddrs, 1+r.Intn(4)) {
+				env.addrs = append(env.addrs, system.IP{Address: netip.MustParsePrefix(s), ValidForever: r.Chance(30)})
+			}
+		}
+		setRoutes := func() {
+			env.routes = nil
+			for _, s := range pick(v12DynRoutes, r.Intn(3)) {
+				env.routes = append(env.routes, system.Route{Prefix: netip.MustParsePrefix(s), Index: 1})
+			}
+		}
+		setAddrs()
+		setRoutes()
+		for _, p := range ifi.Plugins {
+			switch p := p.(type) {
+			case *plugin.Prefix:
+				p.Addrs = func() ([]system.IP, error) { return append([]system.IP(nil), env.addrs...), nil }
+				p.TimeNow = func() time.Time { return env.now }
+			case *plugin.Route:
+				p.Routes = func() ([]system.Route, error) { return append([]system.Route(nil), env.routes...), nil }
+				p.TimeNow = func() time.Time { return env.now }
+			case *plugin.RDNSS:
+				p.Addrs = func() ([]system.IP, error) { return append([]system.IP(nil), env.addrs...), nil }
+			}
+		}
+		current := func() (*ndp.RouterAdvertisement, error) {
+			ra, _, err := ifi.RouterAdvertisement(env.state.Interfaces[ifi.Name].Forwarding)
+			return ra, err
+		}
+		h := newV12Harness(ifi, env.state)
+		var prevImage *ndp.RouterAdvertisement
+		steps := 2 + r.Intn(3)
+		for k := 0; k < steps; k++ {
+			kid := fmt.Sprintf("%s-%d", id, k)
+			change := "none"
+			if k > 0 {
+				// the own RA changes without the advertiser being reinitialised
+				switch change = verifh.Pick(r, []string{"addrs", "addrs", "clock", "forwarding", "routes", "none"}); change {
+				case "addrs":
+					setAddrs()
+				case "routes":
+					setRoutes()
+				case "clock":
+					env.now = env.now.Add(verifh.Pick(r, []time.Duration{time.Second, 37 * time.Second, time.Hour, 1500 * time.Millisecond}))
+				case "forwarding":
+					env.state.Interfaces[ifi.Name] = system.TestStateInterface{Forwarding: !env.state.Interfaces[ifi.Name].Forwarding}
+				}
+			}
+			ours, err := current()
+			if err != nil {
+				// e.g. no eligible address for the wildcard RDNSS: handle fails too; not a C12 case
+				e.out.Emit(verifh.Case{ID: kid, Tags: append([]string{"stream:dyn", "own-ra:does-not-build"}, tags...),
+					Input: map[string]any{"config": toml, "step": k, "change": change}, Observed: map[string]any{"own_ra_error": true}})
+				continue
+			}
+			image, err := v12WireRA(ours)
+			if err != nil {
+				t.Fatalf("%s: own RA does not encode: %v\n%s", kid, err, toml)
+			}
+			// what the other router sends: the image of the current own RA, the image of the own RA as it was at the
+			// previous reception, or the current image with some lifetimes / options changed
+			theirs, self, kind := image, 1, "image-of-current"
+			if v12WireExact(ours) {
+				self = 2
+			}
+			switch x := r.Intn(100); {
+			case x < 35:
+			case x < 55 && prevImage != nil:
+				theirs, self, kind = prevImage, 0, "image-of-previous"
+			default:
+				peer := &ndp.RouterAdvertisement{}
+				*peer = *image
+				peer.Options = v12Mutate(r, image.Options)
+				w, err := v12WireRA(peer)
+				if err != nil {
+					t.Fatalf("%s: peer RA does not encode: %v", kid, err)
+				}
+				theirs, self, kind = w, 0, "mutated-current"
+			}
+			prevImage = image
+			o, hookOurs, err := h.deliver(theirs)
+			if err != nil {
+				e.out.Emit(verifh.Case{ID: kid, ImplViolation: "Advertiser.handle failed on a router advertisement: " + err.Error(),
+					Input: map[string]any{"config": toml, "step": k, "change": change}})
+				continue
+			}
+			if hookOurs != nil && !reflect.DeepEqual(hookOurs, ours) {
+				e.out.Emit(verifh.Case{ID: kid + "-hook", ImplViolation: "OnInconsistentRA was given an own RA that is not the one CoreRAD advertises now: " +
+					v12Summary(hookOurs) + " vs " + v12Summary(ours),
+					Input: map[string]any{"config": toml, "step": k, "change": change}})
+			}
+			e.emit(kid, 1, ours, theirs, self, o, append([]string{"stream:dyn", "order:handle", fmt.Sprintf("step:%d", k),
+				"change:" + change, "peer:" + kind}, tags...))
+		}
+	}
 }
 
 // v12CodecUnstable records (without a verdict: domain names are opaque tokens in the model) what
